@@ -257,7 +257,7 @@ end
 def VPos (EL : Lvl) (S : Item → Prop) (p : Nat) : Prop := ErrOK EL S p
 
 theorem vpos_of {EL : Lvl} {S : Item → Prop} {it : Item} (hs : S it) (hv : EL.lex → valid it) : VPos EL S it.pos :=
-  ⟨⟨it, hs, rfl⟩, fun hl => ⟨it, hs, hv hl, rfl⟩⟩
+  ⟨⟨it, hs, Or.inl rfl⟩, fun hl => ⟨it, hs, hv hl, Or.inl rfl⟩⟩
 
 open SoyVerif.Model.FileParser in
 /-- the case nodes of a switch stand at positions an error may be reported at -/
